@@ -1055,7 +1055,7 @@ func tokenizerLoop(c *Ctx, u *U, s *Summary, l *Loop) bool {
 	for b := range l.Blocks {
 		for _, in := range b.Instrs {
 			if cl, ok := in.(*ssa.Call); ok {
-				if cal := cl.Call.StaticCallee(); cal != nil && c.P.IsLibFunc(cal) && cal.Signature.Params().Len() == 1 && typeStr(cal.Signature.Params().At(0).Type()) == "*string" {
+				if cal := cl.Call.StaticCallee(); cal != nil && c.P.IsLibFunc(cal) && cal == tokenizerRole(c.P, s.Fn) {
 					if s.RC[b] == u.bdd.And(s.RC[l.Header], cont) {
 						okCall = true
 					}
